@@ -8276,9 +8276,7 @@ class HCI_AclDataPacketAssembler:
             HCI_ACL_PB_FIRST_NON_FLUSHABLE,
             HCI_ACL_PB_FIRST_FLUSHABLE,
         ):
-            (l2cap_pdu_length,) = struct.unpack_from('<H', packet.data, 0)
             self.current_data = packet.data
-            self.l2cap_pdu_length = l2cap_pdu_length
         elif packet.pb_flag == HCI_ACL_PB_CONTINUATION:
             if self.current_data is None:
                 logger.warning('!!! ACL continuation without start')
@@ -8286,6 +8284,10 @@ class HCI_AclDataPacketAssembler:
             self.current_data += packet.data
 
         assert self.current_data is not None
+        if len(self.current_data) < 2:
+            # The L2CAP PDU length field is not complete yet
+            return
+        (self.l2cap_pdu_length,) = struct.unpack_from('<H', self.current_data, 0)
         if len(self.current_data) == self.l2cap_pdu_length + 4:
             # The packet is complete, invoke the callback
             logger.debug(f'<<< ACL PDU: {self.current_data.hex()}')
